@@ -426,3 +426,90 @@ pub fn dump_events(args: &[String]) {
         println!("{:?}", s);
     }
 }
+
+// ------------------------------------------------------------------ grammar machine spec (spec/pgrammar/Grammar.tla)
+
+fn kinds_by_name() -> std::collections::HashMap<String, SyntaxKind> {
+    let mut m = std::collections::HashMap::new();
+    for d in 0u16..=(SyntaxKind::__LAST as u16) {
+        let k: SyntaxKind = d.into();
+        m.insert(format!("{:?}", k), k);
+    }
+    m
+}
+
+/// Run the real parser on an `Input` given as [(kind name, joint)], return the raw event list in the model's vocabulary
+/// ([tag, kind, fwd, n]; an error event carries its message in `kind`).
+pub fn real_events(names: &std::collections::HashMap<String, SyntaxKind>, toks: &[(String, bool)]) -> Result<Vec<Value>, Value> {
+    let mut inp = Input::default();
+    for (k, j) in toks {
+        inp.push(*names.get(k).unwrap_or_else(|| panic!("unknown kind {k}")));
+        if *j {
+            inp.was_joint();
+        }
+    }
+    guarded(|| {
+        oq3_parser::verif::keep_events(true);
+        let out = TopEntryPoint::SourceFile.parse(&inp);
+        let raw = oq3_parser::verif::last_events();
+        let msgs: Vec<String> = out.iter().filter_map(|s| match s { oq3_parser::Step::Error { msg } => Some(msg.to_string()), _ => None }).collect();
+        let mut mi = 0usize;
+        raw.iter().map(|e| {
+            let kname = |k: u16| { let sk: SyntaxKind = k.into(); if sk == SyntaxKind::TOMBSTONE { "T".to_string() } else { format!("{:?}", sk) } };
+            match e.0 {
+                "start" => json!({"tag": "start", "kind": kname(e.1), "fwd": e.3.unwrap_or(0), "n": 0}),
+                "finish" => json!({"tag": "finish", "kind": "-", "fwd": 0, "n": 0}),
+                "token" => json!({"tag": "token", "kind": kname(e.1), "fwd": 0, "n": e.2}),
+                _ => { let m = msgs.get(mi).cloned().unwrap_or_default(); mi += 1; json!({"tag": "error", "kind": m, "fwd": 0, "n": 0}) }
+            }
+        }).collect::<Vec<_>>()
+    })
+}
+
+/// gram-model-cases <cases.ndjson> <out.json>: every (token sequence, event list) computed by the grammar machine spec
+/// (TLC, MCGrammar) against the real parser on the same oq3_parser::Input.
+pub fn model_cases(args: &[String]) {
+    use std::io::BufRead;
+    let names = kinds_by_name();
+    let fails: Mutex<Vec<Value>> = Mutex::new(vec![]);
+    let kinds: Mutex<std::collections::BTreeSet<String>> = Mutex::new(Default::default());
+    let fams: Mutex<std::collections::BTreeMap<String, u64>> = Mutex::new(Default::default());
+    let mut ncases = 0usize;
+    let f = std::fs::File::open(&args[0]).unwrap_or_else(|e| { eprintln!("cannot read {}: {e}", args[0]); std::process::exit(2) });
+    let mut lines = std::io::BufReader::new(f).lines().map_while(Result::ok);
+    loop {
+        // the case files can hold millions of lines: process them in batches
+        let batch: Vec<String> = lines.by_ref().take(100_000).collect();
+        if batch.is_empty() { break; }
+        ncases += batch.len();
+    batch.par_iter().for_each(|line| {
+        let c: Value = serde_json::from_str(line).expect("bad ndjson line");
+        let c = &c;
+        if let Some(fam) = c.get("fam").and_then(|f| f.as_str()) { *fams.lock().unwrap().entry(fam.to_string()).or_insert(0) += 1; }
+        let toks: Vec<(String, bool)> = c["toks"].as_array().unwrap().iter().map(|t| (t["k"].as_str().unwrap().to_string(), t["j"].as_bool().unwrap())).collect();
+        let push = |v: Value| { let mut f = fails.lock().unwrap(); if f.len() < 300 { f.push(v); } };
+        match real_events(&names, &toks) {
+            Err(p) => push(json!({"kind": "panic", "what": "the parser panicked on a token sequence", "toks": c["toks"], "panic": p, "site": p["func"], "model_bad": c["bad"]})),
+            Ok(ev) => {
+                {
+                    let mut ks = kinds.lock().unwrap();
+                    for e in &ev { if e["tag"] == "start" { ks.insert(e["kind"].as_str().unwrap().to_string()); } }
+                }
+                // C01's work bound, evaluated on the real event list
+                if ev.len() > 64 * (toks.len() + 1) {
+                    push(json!({"kind": "work", "what": "the parser produced more than 64 * (tokens + 1) events", "toks": c["toks"], "events": ev.len(), "site": ""}));
+                }
+                if c["bad"].as_str().unwrap_or("") != "" {
+                    push(json!({"kind": "model_bad", "what": "the machine spec predicts that the parser does not return, but it did", "toks": c["toks"], "model_bad": c["bad"]}));
+                } else if Value::Array(ev.clone()) != c["ev"] {
+                    let me = c["ev"].as_array().unwrap();
+                    let at = ev.iter().zip(me.iter()).position(|(a, b)| a != b).unwrap_or(ev.len().min(me.len()));
+                    push(json!({"kind": "events_mismatch", "what": "raw parser events differ from the grammar machine spec", "toks": c["toks"], "at": at,
+                        "model": me.get(at), "real": ev.get(at), "model_len": me.len(), "real_len": ev.len()}));
+                }
+            }
+        }
+    });
+    }
+    std::fs::write(&args[1], serde_json::to_string(&json!({"cases": ncases, "families": fams.into_inner().unwrap(), "node_kinds": kinds.into_inner().unwrap(), "failures": fails.into_inner().unwrap()})).unwrap()).unwrap();
+}
